@@ -267,6 +267,11 @@ theorem deliverParked_dv (m : M) (p : Parked) (h : DV m.1) : DV (deliverParked m
     | exact h
     | exact runWorkers_dv _ _ (by dv_frame h)
 
+/-- The stop command withdraws the verification request (fix C04-F6). -/
+theorem stopCmd_doVerify (s : St) : (({ s with doVerify := false }).stop false).doVerify = false := by simp
+
+theorem stopCmd_dv (s : St) : DV (({ s with doVerify := false }).stop false) := DV.of_false (stopCmd_doVerify s)
+
 theorem handle_dv (s : St) (p : Parked) (kn : Nat → Bool) (op : Op) (h : DV s) : DV (handle s p kn op).1.1 := by
   unfold handle
   repeat' split
@@ -274,7 +279,9 @@ theorem handle_dv (s : St) (p : Parked) (kn : Nat → Bool) (op : Op) (h : DV s)
     | exact h
     | exact start_dv (s, []) h
     | exact handleMetadataData_dv (s, []) _ _ _ _ h
-    | (simp only [onSt_fst]; have := stop_dv s false h; dv_frame this)
+    | (simp only [onSt_fst]; have := stopCmd_dv s; dv_frame this)
+    | (simp only [onSt_fst]; exact stopCmd_dv s)
+    | exact handleVerifyCommand_dv ({ s with persisted := none }, [])
     | (simp only [onSt_fst]; have := handleVerifyCommand_dv ({ s with persisted := none }, []); dv_frame this)
     | (next heq => have hm := congrArg Prod.fst heq; simp only at hm; rw [← hm]; dv_frame h)
     | (dv_frame h)
